@@ -134,7 +134,10 @@ theorem tempAddress_foreign_refused (a b uid : List Nat) (ha : a.length = 20) (h
 
 /-- **setSigners_temp_bytes**: a ModifySignersTx that sets the signers of ANOTHER account succeeded only if that account
     is a temp address (version byte 3) whose bytes 1..9 are the sender's last 9 bytes, and had no signers. `cb`, `tb` are
-    the two addresses' bytes (what the op line carries). -/
+    the two addresses' bytes (what the op line carries).  NOTE: the statement does not relate `cb` / `tb` to the model's
+    account numbers `fr` / `tg` (the driver does, line by line) and carries no length hypothesis: for byte lists that are
+    not 20 long it speaks about the totalised `verifyTemp` (e.g. `verifyTemp [] [3] = none`), which no Go value reaches
+    (the Go operands are `[20]byte`). -/
 theorem setSigners_temp_bytes (s s' : St) (fr tg : Nat) (l : List (Nat × Nat)) (cb tb : Addr)
     (h : doSetSigners s fr tg l (verifyOk cb tb) = .ok s') (hne : fr ≠ tg) :
     tb.headD 0 = 3 ∧ cb.drop 11 = (tb.drop 1).take 9 ∧ (s.accts tg).signers = [] ∧ (s'.accts tg).signers = l := by
